@@ -77,6 +77,23 @@ func checkC04(p *Prog, r *Report) {
 						}
 					}
 				}
+				// membership in a set built from the list: `_, ok := set[name]` (or
+				// set[name] for a map to bool) where every key put into the local
+				// map is an element of the list
+				if ef.Truth {
+					var lk *ssa.Lookup
+					if ex, isEx := ef.Cond.(*ssa.Extract); isEx && ex.Index == 1 {
+						lk, _ = ex.Tuple.(*ssa.Lookup)
+					} else if l2, isLk := ef.Cond.(*ssa.Lookup); isLk {
+						lk = l2
+					}
+					if lk != nil && setOfList(lk.X, isList) {
+						base, fl, ok := fieldLoad(lk.Index)
+						if ok && fl == nameField && (elemAlloc == nil || base == elemAlloc) {
+							return true
+						}
+					}
+				}
 				bo, ok := ef.Cond.(*ssa.BinOp)
 				if !ok || bo.Op != token.EQL || !ef.Truth {
 					continue
@@ -406,4 +423,32 @@ func checkRelDataKey(p *Prog, r *Report, prefix string) {
 		r.decide(good, prefix+".reldata-key", "MarshalResource:"+p.describe(lk), p.pos(lk.Pos()), "looked up under the resource's own type name", "the relationship-data request is looked up under something other than the type name of the resource being marshaled: relationship data selected for this type is not emitted (e.g. for relationships whose FromType is empty)")
 	})
 	r.floor("relationship-data lookups in MarshalResource", n, 2)
+}
+
+// setOfList: m is a local map (made in the function) whose every stored key is
+// an element of a list accepted by isList, with a constant (or empty struct)
+// value: the set of the list's items.
+func setOfList(m ssa.Value, isList func(ssa.Value) bool) bool {
+	mk, ok := m.(*ssa.MakeMap)
+	if !ok {
+		return false
+	}
+	n := 0
+	for _, ref := range referrers(mk) {
+		switch x := ref.(type) {
+		case *ssa.MapUpdate:
+			if x.Map != ssa.Value(mk) || !elemOfValue(x.Key, isList) {
+				return false
+			}
+			n++
+		case *ssa.Lookup, *ssa.DebugRef:
+		case *ssa.Call:
+			if builtinName(x.Common()) != "len" {
+				return false
+			}
+		default:
+			return false
+		}
+	}
+	return n > 0
 }
